@@ -1,4 +1,5 @@
 import KrakenModel.Model.MetaInfo
+import KrakenModel.Model.RefreshPL
 import KrakenModel.Proof.C02
 /-
   C02  Torrent metainfo exactly describes its blob.
@@ -316,5 +317,37 @@ example : parseInfo ((serializeInfo exInfo).dropLast) = none := by decide
 example : get [⟨0, 1⟩, ⟨10, 4⟩, ⟨20, 8⟩] 9 = .ok 1 ∧ get [⟨0, 1⟩, ⟨10, 4⟩, ⟨20, 8⟩] 10 = .ok 4 ∧
     get [⟨0, 1⟩, ⟨10, 4⟩, ⟨20, 8⟩] 1000 = .ok 8 ∧ get [⟨5, 2⟩, ⟨10, 4⟩] 3 = .ok 2 ∧ get [] 3 = .panic := by decide
 example : mkTable [(20, 8), (0, 1), (10, 4)] = some [⟨0, 1⟩, ⟨10, 4⟩, ⟨20, 8⟩] := by decide
+
+/-! ### the refresh call site (appended in round 2, finding C02-1) -/
+section refresh
+open KrakenModel.RefreshPL
+
+/-- **C02 (last clause, at `Refresher.Refresh`)** Whatever size the backend's Stat reported, the metainfo
+stored for a refreshed blob uses the piece length the table gives for the blob's *own* length: the store
+keeps the pre-selected piece length only when the two sizes agree, otherwise the refresher generates the
+metainfo from the stored blob.  Together with `table_get` this is "the largest threshold not above the
+blob's size". -/
+theorem refresh_piece_length (t : List Range) (stat len : Nat) : refreshPL t stat len = get t len := by
+  unfold refreshPL storePL
+  split
+  · rename_i r h
+    split at h
+    · rename_i e; cases h; rw [e]
+    · cases h
+  · rfl
+
+/-- Before the repair (`/repo` 49c8d02) the piece length chosen for the Stat size was kept: the clause failed
+whenever the two sizes fall into different table ranges (witness: the audit's experiment). -/
+theorem not_refresh_piece_length_old :
+    ¬ ∀ (t : List Range) (stat len : Nat), refreshPLOld t stat len = get t len := by
+  intro h
+  have := h [⟨0, 4⟩, ⟨50, 32⟩] 3 100
+  revert this
+  decide
+
+example : refreshPL [⟨0, 4⟩, ⟨50, 32⟩] 3 100 = .ok 32 ∧ refreshPL [⟨0, 4⟩, ⟨50, 32⟩] 100 100 = .ok 32 ∧
+    refreshPL [⟨0, 4⟩, ⟨50, 32⟩] 100 3 = .ok 4 := by decide
+
+end refresh
 
 end KrakenModel.Spec.C02
